@@ -135,12 +135,59 @@ func (f *faultWriter) counts() (calls, failed int) {
 	return f.calls, f.failed
 }
 
+// faultReader is the client's reader: the READ behaviour of the transport at the moment it fails.  It forwards to
+// the pipe until the peer ends the stream.  A stream ended with FailOutput / CutOutput returns its last bytes and the
+// terminal error in SEPARATE Read calls (what pipes and sockets do).  A stream ended with FailOutputData(tail, err)
+// hands out the bytes of tail once everything written before them has been read, and the Read call that hands out
+// the LAST of them returns err IN THE SAME CALL (n > 0, err != nil — explicitly allowed by the io.Reader contract:
+// iotest.DataErrReader, readers that learn about the end together with the final segment); every later Read
+// returns (0, err).
+type faultReader struct {
+	r       *io.PipeReader
+	mu      sync.Mutex
+	tail    []byte
+	terr    error
+	dataErr int // Read calls that returned data together with the terminal error
+}
+
+var errFaultTail = errors.New("faultpeer: held-back tail follows")
+
+func (f *faultReader) Read(p []byte) (int, error) {
+	n, err := f.r.Read(p)
+	if err != errFaultTail {
+		return n, err
+	}
+	// the pipe is drained (io.Pipe reports the close error only when no Write is pending, with n == 0)
+	f.mu.Lock()
+	defer f.mu.Unlock()
+	if len(p) == 0 && len(f.tail) > 0 {
+		return 0, nil
+	}
+	n = copy(p, f.tail)
+	f.tail = f.tail[n:]
+	if len(f.tail) > 0 {
+		return n, nil
+	}
+	if n > 0 {
+		f.dataErr++
+	}
+	return n, f.terr
+}
+
+// DataErrReads returns how many Read calls of the client returned data together with the terminal error.
+func (f *faultReader) DataErrReads() int {
+	f.mu.Lock()
+	defer f.mu.Unlock()
+	return f.dataErr
+}
+
 // faultPeer is the server end of the client's transport (the same surface as peers.ScriptedServer).
 type faultPeer struct {
 	fromCli *io.PipeReader
 	toCli   *io.PipeWriter
 	Reqs    chan wire.Pkt
 	W       *faultWriter
+	R       *faultReader
 	wmu     sync.Mutex
 }
 
@@ -150,7 +197,8 @@ func newFaultClient(versionFrame []byte, passN int, werr error, onFail func(call
 	c2sR, c2sW := io.Pipe()
 	s2cR, s2cW := io.Pipe()
 	fw := &faultWriter{w: c2sW, passN: passN, err: werr, onFail: onFail}
-	fp := &faultPeer{fromCli: c2sR, toCli: s2cW, Reqs: make(chan wire.Pkt, 65536), W: fw}
+	fr := &faultReader{r: s2cR}
+	fp := &faultPeer{fromCli: c2sR, toCli: s2cW, Reqs: make(chan wire.Pkt, 65536), W: fw, R: fr}
 	go func() {
 		first := true
 		for {
@@ -177,7 +225,7 @@ func newFaultClient(versionFrame []byte, passN int, werr error, onFail func(call
 	}
 	ch := make(chan res, 1)
 	go func() {
-		c, err := sftp.NewClientPipe(s2cR, fw, opts...)
+		c, err := sftp.NewClientPipe(fr, fw, opts...)
 		ch <- res{c, err}
 	}()
 	select {
@@ -217,6 +265,16 @@ func (s *faultPeer) CutOutput() { s.toCli.Close() }
 
 // FailOutput ends the server→client stream with err: the client's pending and later Reads return err itself.
 func (s *faultPeer) FailOutput(err error) { s.toCli.CloseWithError(err) }
+
+// FailOutputData ends the server→client stream with `tail` as its last bytes, delivered TOGETHER with the terminal
+// error err (io.EOF for a plain end of the stream): see faultReader.  Everything written with Reply before has been
+// read by the client when Reply returned (io.Pipe), so the tail follows it in stream order.
+func (s *faultPeer) FailOutputData(tail []byte, err error) {
+	s.R.mu.Lock()
+	s.R.tail, s.R.terr = append([]byte(nil), tail...), err
+	s.R.mu.Unlock()
+	s.toCli.CloseWithError(errFaultTail)
+}
 
 // FailInput makes the client's pending and later Writes return err itself (nil: io.ErrClosedPipe).
 func (s *faultPeer) FailInput(err error) { s.fromCli.CloseWithError(err) }
